@@ -138,11 +138,60 @@ def run(tier, seed, model):
         if len(camp.samples) < 4 and i % 151 == 0:
             camp.samples.append({"mode": mode, "nocursor": nocursor, "ops": [[o[0]] + [x if not isinstance(x, bytes) else f"{len(x)}B" for x in o[1:]] for o in ops[:6]]})
     far_edges(camp, rng)
+    if not camp.oracle_failures:
+        wire_histories(camp, rng)
     camp.rule = ("random histories of 1..24 updateRectangle / fillRectangle / updateDesktopSize / updateCursor calls on the real "
                  "VNCDoToolClient (first rectangle off the origin, rectangles beyond the image, overlaps, sizes incl. 0, resizes up "
                  "and down, every image mode, nocursor on/off); client.screen compared byte-exactly with the reference composition "
                  "(when no cursor is composited) and with the Coq screen model (always); non-trivial = history judged by the oracle")
     return camp
+
+
+def wire_histories(camp, rng):
+    """the same composition rule, driven through the wire (ServerInit, raw rectangles, DesktopSize pseudo-rectangles): the
+    canvas is not tied to the announced size - rectangles beyond it grow it, a partial first update leaves it smaller - and a
+    desktop-size announcement, also one that REPEATS the size announced before, gives the image exactly that size"""
+    import struct
+    fmt = rfbgen.RGB32
+
+    def raw(x, y, w, h):
+        vals = [rng.getrandbits(24) for _ in range(w * h)]
+        return ("raw", x, y, w, h, vals)
+
+    histories = [
+        ((32, 24), [[raw(0, 0, 32, 24)], [raw(30, 20, 10, 10)], [("size", 32, 24)], [raw(1, 1, 2, 2)]]),
+        ((32, 24), [[raw(0, 0, 8, 6)], [("size", 32, 24)]]),
+        ((32, 24), [[raw(0, 0, 8, 6)], [("size", 20, 16)], [raw(18, 2, 8, 3)], [("size", 20, 16), raw(0, 0, 2, 2)]]),
+        ((16, 12), [[("size", 24, 18)], [raw(2, 2, 3, 3)]]),
+        ((16, 12), [[raw(0, 0, 16, 12)], [("size", 16, 12)], [("size", 8, 6)], [("size", 8, 6)], [raw(6, 4, 4, 4)], [("size", 8, 6)]]),
+    ]
+    for (w0, h0), msgs in histories:
+        data = b"RFB 003.008\n\x01\x01\0\0\0\0" + struct.pack("!HH16sI", w0, h0, fmt.block(), 0)
+        cv = rfbgen.RefCanvas()
+        chunks = [data]
+        for rects in msgs:
+            m = b"\0\0" + struct.pack("!H", len(rects))
+            for r in rects:
+                if r[0] == "raw":
+                    _, x, y, w, h, vals = r
+                    m += struct.pack("!HHHHi", x, y, w, h, 0) + b"".join(fmt.pix(v) for v in vals)
+                    cv.put(x, y, w, h, [fmt.rgb(v) for v in vals])
+                else:
+                    m += struct.pack("!HHHHi", 0, 0, r[1], r[2], -223)
+                    cv.resize(r[1], r[2])
+            chunks.append(m)
+        cfg = rfbreal.Cfg(variant=1, nocursor=True, pseudodesktop=True)
+        r = rfbreal.run_real(cfg, chunks)
+        camp.evaluations += 1
+        camp.count("wire-history")
+        camp.nontrivial.add(("wire", (w0, h0), len(msgs)))
+        ref = cv.tobytes()
+        if r["final"][0] != "idle" or r["screen"] != ref:
+            camp.oracle_failures.append({"kind": "oracle", "property": "C12", "case": {"wire_history": [[q[:5] for q in rects] for rects in msgs], "init": [w0, h0]},
+                                         "what": f"ServerInit {w0}x{h0}, then {[[q[:5] if q[0] == 'raw' else q for q in rects] for rects in msgs]}: "
+                                                 f"the client ends {r['final'][0]} with screen {r['screen'] and r['screen'][0]}, the composition of what "
+                                                 f"was sent is {ref and ref[0]}"})
+            return
 
 
 def far_edges(camp, rng):
@@ -173,6 +222,8 @@ def far_edges(camp, rng):
 
 
 def replay(payload):
+    if "wire_history" in payload.get("case", {}):
+        return True, "replay: wire-level history; re-run ./check C12"
     case = payload["case"]
     ops = [tuple([o[0]] + [bytes.fromhex(x) if isinstance(x, str) else x for x in o[1:]]) for o in case["ops"]]
     flags, scr = run_real(case["mode"], case["nocursor"], ops)
